@@ -185,8 +185,13 @@ def run(tier: str, driver_ok: bool) -> Result:
         nbytes = r.choice([1, 2, 3, 4, 5, 8, 128, 254, 255, 256, 257, 300])
         e = r.getrandbits(8 * nbytes) | 1
         exps.append(e)
-    for e in exps:
+    # octet patterns of the modulus FIELD (the codec is about octets, lossless): leading zero octets, all ones, a leading 0x04, top bit clear
+    n_patterns = [lambda k: b"\x00" + r.randbytes(k - 1), lambda k: b"\x00\x00" + r.randbytes(k - 2), lambda k: b"\xff" * k, lambda k: b"\x04" + r.randbytes(k - 1),
+                  lambda k: bytes([r.randrange(1, 0x80)]) + r.randbytes(k - 1), lambda k: b"\x00" * k]
+    for ei, e in enumerate(exps):
         n = r.randbytes(r.choice([0, 1, 64, 128, 129, 256]))
+        if ei % 2 == 1:
+            n = n_patterns[(ei // 2) % len(n_patterns)](r.choice([2, 64, 128, 256]))
         pub = KSKM_PublicKey_RSA(bits=len(n) * 8, exponent=e, n=n, algorithm=AlgorithmDNSSEC.RSASHA256)
         enc = run_impl(lambda: pub.encode_public_key(), lambda b: b.decode())
         # RFC 3110 §2: one length octet for an exponent of 1..255 octets, otherwise 0x00 and a two-octet length
